@@ -537,6 +537,19 @@ func cmdCfgSync(args []string) error {
 		w := newSideWorld(dir, "")
 		// the shard runs the catalogue (pushed by an earlier cycle)
 		_ = w.apiPost("/api/v1/status/config", &shard.UpdateConfigRequest{RawContent: catalogueYAML}, nil)
+		promDown := len(done)%3 == 0
+		if promDown {
+			// the shard answered a runtime-info request before; now its Prometheus is down (head series not available)
+			var rt *shard.RuntimeInfo
+			_ = w.apiGet("/api/v1/shard/runtimeinfo/", &rt)
+			w.promDown = true
+			// ... and the shard is given the edited configuration by somebody else, while THIS coordinator stays on the catalogue
+			_ = w.apiPost("/api/v1/status/config", &shard.UpdateConfigRequest{RawContent: e.YAML}, nil)
+		}
+		coordYAML := e.YAML
+		if promDown {
+			coordYAML = catalogueYAML
+		}
 		// the coordinator has reloaded the edited configuration
 		cm := prom.NewConfigManager()
 		withExtra := len(done)%2 == 0
@@ -544,7 +557,7 @@ func cmdCfgSync(args []string) error {
 			// an administrator has stopped scraping (extra config, process-local) before the reload
 			_ = cm.UpdateExtraConfig(prom.ExtraConfig{StopScrapeReason: "maintenance"})
 		}
-		if err := cm.ReloadFromRaw([]byte(e.YAML)); err != nil {
+		if err := cm.ReloadFromRaw([]byte(coordYAML)); err != nil {
 			cleanupDir(dir)
 			continue
 		}
@@ -562,12 +575,16 @@ func cmdCfgSync(args []string) error {
 				applied = true
 			}
 		}
-		same := string(w.cfgm.ConfigInfo().RawContent) == e.YAML
+		same := string(w.cfgm.ConfigInfo().RawContent) == coordYAML
 		pushed := false
 		for _, r := range reqs {
 			pushed = pushed || r == "cfg"
 		}
 		// a second cycle: the shard that now holds the coordinator's content has to be found in sync
+		// (if its Prometheus was down, an operator has meanwhile pushed the configuration by hand and Prometheus is back)
+		if promDown {
+			w.promDown = false // Prometheus is back
+		}
 		reqs1 := append([]string{}, reqs...)
 		reqs = reqs[:0]
 		_ = c.VerifRunOnce()
@@ -576,8 +593,8 @@ func cmdCfgSync(args []string) error {
 			applied2 = applied2 || r == "targets" || r == "extra"
 			pushed2 = pushed2 || r == "cfg"
 		}
-		same2 := string(w.cfgm.ConfigInfo().RawContent) == e.YAML
-		_ = wr.Write(map[string]interface{}{"path": e.Path, "class": e.Class, "kind": e.Kind, "what": e.What, "withExtraConfig": withExtra,
+		same2 := string(w.cfgm.ConfigInfo().RawContent) == coordYAML
+		_ = wr.Write(map[string]interface{}{"path": e.Path, "class": e.Class, "kind": e.Kind, "what": e.What, "withExtraConfig": withExtra, "prometheusWasDown": promDown,
 			"reqs": reqs1, "treatedInSync": applied, "shardRunsCoordinatorConfig": same, "pushed": pushed,
 			"reqs2": append([]string{}, reqs...), "treatedInSync2": applied2, "pushedAgain": pushed2, "shardRunsCoordinatorConfig2": same2})
 		cleanupDir(dir)
